@@ -77,6 +77,7 @@ func cmdVerify(args []string) {
 	canaries := fs.Bool("canaries", true, "")
 	opcase := fs.String("opcase", "", "")
 	nocache := fs.Bool("nocache", false, "")
+	nosolve := fs.Bool("n", false, "generate obligations only")
 	fs.Parse(args)
 	if *nocache {
 		gvc.UseCache = false
@@ -98,6 +99,22 @@ func cmdVerify(args []string) {
 		}
 		r := gvc.Verify(P, b, gvc.Options{Canaries: *canaries, OnlyOpcase: *opcase})
 		results = append(results, r)
+	}
+	if *nosolve {
+		for _, r := range results {
+			fmt.Println(r.Block.Name, "paths", r.Paths, "obligations", len(r.Obligs), "err", r.Err)
+			byPath := map[string]int{}
+			for _, o := range r.Obligs {
+				byPath[o.Path]++
+			}
+			for p, n := range byPath {
+				if len(p) > 150 {
+					p = p[:150] + "..."
+				}
+				fmt.Println("  ", n, p)
+			}
+		}
+		return
 	}
 	gvc.Discharge(results, *timeout, 16)
 	bad := 0
